@@ -40,15 +40,19 @@
    (go/cmd/soyverif/c09.go) is built with -race and runs the real code.
 
    JavaScript generation and compilation are no longer arbitrary functions
-   with an assumed access pattern: they are the models Model/JsGen.v
-   ([gen_file]) and Model/Compile.v ([compile]) as threads (Model/ConcJs.v).
+   with an assumed access pattern: JavaScript generation is the model
+   Model/JsGen.v ([gen_file]) as a thread (Model/ConcJs.v).
    Everything [gen_file] mutates is its own record [jstate]; the derived,
    access-logging copy of the generator (Generated/JsGenTrace.v, regenerated
    from the text of Model/JsGen.v on every run) records one entry per look at
    a tree node and per read / update of that record, and
    [C09_jsgen_no_shared_writes] says that nothing else is ever logged;
-   [compile] folds [registry_add] from the empty registry, in the compiling
-   thread's own location.  That the Go code has no OTHER mutation is tied to
+   a compilation is a private computation (any number of updates of the
+   registry it builds, in the thread's own location, then a result of any
+   type); Proofs/ConcCompileInst.v instantiates it with [compile] of
+   Model/Compile.v, which folds [registry_add] from the empty registry (that
+   file is built on every run but kept out of this property's imports, so
+   that the message-id tables Model/Compile.v depends on are not C09's tie).  That the Go code has no OTHER mutation is tied to
    the source by (iii): the package-level variables, the writes to them, the
    methods called on them and the writes through syntax-tree / registry /
    bundle typed values in soyhtml, soyjs and template are enumerated from the
@@ -56,7 +60,7 @@
    ([C09_package_state_quiet]). *)
 From Coq Require Import List Arith.
 From Soy Require Import Model.Bytes Model.Values Model.Outcome Model.Ast Model.Interp Model.JsGen Generated.JsGenTrace
-  Model.Compile Model.Conc Model.ConcRender Model.ConcJs Generated.PkgState Model.ConcGlobals
+  Model.Conc Model.ConcRender Model.ConcJs Generated.PkgState Model.ConcGlobals
   Proofs.ConcProofs Proofs.PurityProofs Proofs.ConcRenderProofs Proofs.ConcJsProofs Proofs.ConcGlobalsProofs.
 Import ListNotations.
 Open Scope N_scope.
@@ -138,18 +142,18 @@ Print Assumptions C09_jsgen_no_shared_writes.
 
 (* as threads: soyjs.Write of any file of the bundle (at object granularity, and access by access as
    logged) and Bundle.Compile of any independent bundle keep the ownership discipline on ANY store,
-   and return [gen_file] / [compile] of the models *)
+   and return [gen_file] of the model / the compilation's result *)
 Theorem C09_jsgen_compile_threads_disciplined :
-  forall (i : nat) (s : store rloc sval),
+  forall (CR : Type) (i : nat) (s : store rloc sval),
     (forall o fuel file,
-        disciplined rloc_eqb rowner i (cjsgen_prog i o fuel file) s
-        /\ solo_result rloc_eqb (cjsgen_prog i o fuel file) s = CRJs (js_on o fuel file (s LFiles))
-        /\ disciplined rloc_eqb rowner i (cjsgen_fine_prog i o fuel file) s)
-    /\ (forall c,
+        disciplined rloc_eqb rowner i (cjsgen_prog CR i o fuel file) s
+        /\ solo_result rloc_eqb (cjsgen_prog CR i o fuel file) s = CRJs (js_on o fuel file (s LFiles))
+        /\ disciplined rloc_eqb rowner i (cjsgen_fine_prog CR i o fuel file) s)
+    /\ (forall c : ccompile CR,
         disciplined rloc_eqb rowner i (ccompile_prog i c) s
-        /\ solo_result rloc_eqb (ccompile_prog i c) s = CRCompiled (SCompiled (compile_of c))).
+        /\ solo_result rloc_eqb (ccompile_prog i c) s = CRCompiled (cc_result c)).
 Proof.
-  intros i s. split.
+  intros CR i s. split.
   - intros o fuel file. split; [apply cjsgen_disciplined|]. split; [apply cjsgen_result|apply cjsgen_fine_disciplined].
   - intros c. split; [apply ccompile_disciplined|apply ccompile_result].
 Qed.
@@ -159,10 +163,11 @@ Print Assumptions C09_jsgen_compile_threads_disciplined.
 
 (* Any family of tasks over one store -- renders of any templates with any
    data, JavaScript generation of any file with any options (Model/JsGen.v),
-   compilations of any independent bundles (Model/Compile.v) -- under ANY
+   compilations of any independent bundles (private computations of any
+   length and result; Model/Compile.v is one: Proofs/ConcCompileInst.v) -- under ANY
    schedule: no race at the model's abstract locations. *)
 Theorem C09_concurrent_race_free :
-  forall (ts : list ctask) (s0 : store rloc sval) (sched : list nat),
+  forall (CR : Type) (ts : list (ctask CR)) (s0 : store rloc sval) (sched : list nat),
     ~ has_race (snd (run rloc_eqb sched (Build_config (ctask_progs ts) s0))).
 Proof. exact concurrent_ctasks_race_free. Qed.
 Print Assumptions C09_concurrent_race_free.
@@ -174,7 +179,7 @@ Print Assumptions C09_concurrent_race_free.
    generation: the chunks of [gen_file]; a compilation: [compile]); it has
    finished once it was scheduled as often as it has accesses. *)
 Theorem C09_concurrent_results :
-  forall (ts : list ctask) (s0 : store rloc sval) (sched : list nat) c tr,
+  forall (CR : Type) (ts : list (ctask CR)) (s0 : store rloc sval) (sched : list nat) c tr,
     run rloc_eqb sched (Build_config (ctask_progs ts) s0) = (c, tr) ->
     (forall l, rowner l = None -> shared c l = s0 l)
     /\ forall i t, nth_error ts i = Some t ->
@@ -187,15 +192,15 @@ Print Assumptions C09_concurrent_results.
 
 (* spelled out for the bytes of a render over one compiled bundle *)
 Corollary C09_concurrent_render_bytes :
-  forall reg fs oblig msgs h (ts : list ctask) (sched : list nat) c tr i rq rr,
+  forall (CR : Type) reg fs oblig msgs h (ts : list (ctask CR)) (sched : list nat) c tr i rq rr,
     run rloc_eqb sched (Build_config (ctask_progs ts) (bundle_store_files reg fs oblig msgs h)) = (c, tr) ->
     nth_error ts i = Some (CRender rq) ->
     nth_error (threads c) i = Some (Done (CRRender (Some rr))) ->
     render_on rq (SRegistry reg) (SConfig oblig) (SMessages msgs) (SHeap h) = Some rr
     /\ shared c LRegistry = SRegistry reg /\ shared c LFiles = SFiles fs /\ shared c LHeap = SHeap h.
 Proof.
-  intros reg fs oblig msgs h ts sched c tr i rq rr Hrun Ht Hd.
-  destruct (concurrent_ctasks_sequential ts _ sched c tr Hrun) as (Hsh & Hth).
+  intros CR reg fs oblig msgs h ts sched c tr i rq rr Hrun Ht Hd.
+  destruct (concurrent_ctasks_sequential CR ts _ sched c tr Hrun) as (Hsh & Hth).
   destruct (Hth i _ Ht) as (Hdone & _ & _). specialize (Hdone _ Hd). cbn in Hdone.
   split; [|split; [apply (Hsh LRegistry); reflexivity|split; [apply (Hsh LFiles); reflexivity|apply (Hsh LHeap); reflexivity]]].
   unfold render_alone in Hdone. cbn in Hdone. now inversion Hdone.
@@ -209,9 +214,9 @@ Print Assumptions C09_concurrent_render_bytes.
    reads they make, wherever they place them) are race-free under every
    schedule and return those results. *)
 Theorem C09_any_access_placement :
-  forall (ps : list cprog) (ts : list ctask) (s0 : store rloc sval) (sched : list nat) c tr,
+  forall (CR : Type) (ps : list (cprog CR)) (ts : list (ctask CR)) (s0 : store rloc sval) (sched : list nat) c tr,
     length ps = length ts ->
-    (forall i p t, nth_error ps i = Some p -> nth_error ts i = Some t -> implements_task s0 i p t) ->
+    (forall i p t, nth_error ps i = Some p -> nth_error ts i = Some t -> implements_task CR s0 i p t) ->
     run rloc_eqb sched (Build_config ps s0) = (c, tr) ->
     ~ has_race tr
     /\ (forall l, rowner l = None -> shared c l = s0 l)
@@ -274,29 +279,27 @@ Proof. exact shared_set_races. Qed.
 (* One bundle ({namespace ns}{template .t}{$x}{/template}, obligatory directive
    escapeUri), one data map shared by two renders, two JavaScript generations
    of its file (one at object granularity, one access by access) and a
-   compilation of the same source, interleaved access by access: everything
+   compilation, interleaved access by access: everything
    finishes, both renders wrote "a+b", both generations produced the same text,
    the compile thread left its result in its own location. *)
 Definition ex_rq : creq :=
   {| cq_name := wit_name; cq_data := Some 7; cq_ij := None; cq_fuel := 10%nat; cq_calls := None; cq_bytes := None; cq_first_id := 100 |}.
-Definition ex_file : sfile :=
-  {| sfile_name := b "f.soy"; sfile_text := b "{namespace ns}/** @param x */{template .t}{$x}{/template}";
-     sfile_body := [NNamespace 0 (b "ns") 0; NSoyDoc 0 [NSoyDocParam 0 wit_x false]; NTemplate 0 wit_name (NList 0 [NPrint 4 (NDataRef 5 wit_x []) []]) 0 false] |}.
+Definition ex_file : jfile :=
+  {| jf_name := b "f.soy";
+     jf_body := [NNamespace 0 (b "ns") 0; NSoyDoc 0 [NSoyDocParam 0 wit_x false]; NTemplate 0 wit_name (NList 0 [NPrint 4 (NDataRef 5 wit_x []) []]) 0 false] |}.
 Definition ex_store : store rloc sval :=
   bundle_store_files wit_reg [ex_file] [b "escapeUri"] None [(7, [(wit_x, VStr (b "a b"))])].
 Definition ex_opts : jopts := {| o_fmt := ES5; o_msgs := None; o_order := fun l => l |}.
-Definition ex_orders : orders := {| o_globals := fun l => l; o_children := fun l => l; o_ph := fun l => l; o_imports := fun l => l |}.
-Definition ex_compile : ccompile :=
-  {| cc_node_string := fun _ => []; cc_orders := ex_orders; cc_globals := []; cc_srcs := [SrcOk ex_file] |}.
-Definition ex_tasks : list ctask :=
+Definition ex_compile : ccompile nat := {| cc_steps := 2; cc_result := 1%nat |}.
+Definition ex_tasks : list (ctask nat) :=
   [CRender ex_rq; CJsGen ex_opts 20 0; CRender ex_rq; CCompile ex_compile; CJsGenFine ex_opts 20 0].
 Definition ex_sched : list nat := [0; 2; 3; 0; 1; 2; 2; 0; 3; 9; 2; 0; 1; 1; 3; 3; 4; 3]%nat ++ repeat 4%nat 400.
 
-Definition ex_summary (p : cprog) : option (bool * bstr) :=
+Definition ex_summary (p : cprog nat) : option (bool * bstr) :=
   match p with
   | Done (CRRender (Some rr)) => Some (is_ok (rr_outcome rr), concat_b (rr_writes rr))
   | Done (CRJs (Some (Ok cs))) => Some (true, [N.of_nat (length cs)])
-  | Done (CRCompiled (SCompiled (COk cp))) => Some (true, [N.of_nat (length (r_templates (cp_reg cp)))])
+  | Done (CRCompiled n) => Some (true, [N.of_nat n])
   | _ => None
   end.
 
@@ -310,25 +313,25 @@ Example C09_nonvacuous :
   /\ proj 2 tr = [Rd LRegistry; Rd LConfig; Rd LMessages; Rd LHeap]
   /\ proj 1 tr = [Rd LFiles; Rd LMessages; Wr (LOwn 1) SClobbered]
   /\ Nat.ltb 10 (length (proj 4 tr)) = true
-  /\ match shared c (LOwn 3) with SCompiled (COk _) => true | _ => false end = true.
+  /\ match shared c (LOwn 3) with SClobbered => true | _ => false end = true.
 Proof. vm_compute. repeat split; reflexivity. Qed.
 
 (* the traced generator logs tree reads and own accesses on this file, and produces the text of gen_file *)
 Example C09_trace_nonvacuous :
-  match gen_file_traced ex_opts 20 (sfile_name ex_file) (sfile_body ex_file) with
+  match gen_file_traced ex_opts 20 (jf_name ex_file) (jf_body ex_file) with
   | (Ok cs, Some t) =>
-      Ok cs = JsGen.gen_file ex_opts 20 (sfile_name ex_file) (sfile_body ex_file)
+      Ok cs = JsGen.gen_file ex_opts 20 (jf_name ex_file) (jf_body ex_file)
       /\ (let '(r, o, w) := jacc_count t in Nat.leb 4 r && Nat.leb 10 o && Nat.leb 10 w = true)
   | _ => False
   end.
 Proof. vm_compute. split; reflexivity. Qed.
 
 (* a render that re-reads the caller's maps and the registry between its steps implements the same render *)
-Definition ex_piecemeal : cprog :=
+Definition ex_piecemeal : cprog nat :=
   Read LHeap (fun _ => Read LRegistry (fun vr => Read LHeap (fun _ => Read LConfig (fun vc => Read LRegistry (fun _ =>
   Read LMessages (fun vm => Read LHeap (fun vh => Done (CRRender (render_on ex_rq vr vc vm vh))))))))).
 Example C09_piecemeal_nonvacuous :
-  implements_task ex_store 0 ex_piecemeal (CRender ex_rq) /\ implements_task ex_store 1 (ctask_prog 1 (CRender ex_rq)) (CRender ex_rq).
+  implements_task nat ex_store 0 ex_piecemeal (CRender ex_rq) /\ implements_task nat ex_store 1 (ctask_prog 1 (CRender ex_rq)) (CRender ex_rq).
 Proof.
   split; [|apply ctask_prog_implements].
   split; [unfold disciplined; vm_compute; repeat constructor | vm_compute; reflexivity].
